@@ -507,7 +507,17 @@ def check(pid, tier="quick", seed=None, replay=None):
     n = int(os.environ.get("VERIF_CASES", P.THOROUGH_N if tier == "thorough" else P.QUICK_N))
     if replay:
         payload = json.load(open(replay))
-        cases = [c["case"] for c in payload.get("cases", [])] or [payload["case"]]
+        cases = [c["case"] for c in payload.get("cases", [])]
+        if not cases and "case" in payload:
+            cases = [payload["case"]]
+        if not cases:
+            # a "no-longer-checks" replay: it names proof/link/correspondence problems; those that carry a first
+            # disagreeing case (model mismatch without a spec violation) can be re-run
+            cases = [pb["first"]["case"] for pb in payload.get("problems", [])
+                     if isinstance(pb.get("first"), dict) and "case" in pb["first"]]
+        if not cases:
+            print("[vcheck] replay file %s names no case (it records which theorem/correspondence no longer checks): "
+                  "re-run the check itself" % replay)
     else:
         cases = corpus_cases(pid) + P.generate(rng, tier, n)
     res = {"model_ok": [], "spec_ok": []}
